@@ -40,12 +40,13 @@ def canon_py(t):
     return (t[0], tuple(sorted(canon_py(k) for k in t[1])))
 
 
-def flatten(t, job, name, first_id, t0=1000):
+def flatten(t, job, name, first_id, t0=1000, dur=5):
     evs = []
 
     def go(node, par):
         i = first_id + len(evs)
-        evs.append(dict(id=i, par=par, job=job, name=name, ty=node[0], st=t0 + len(evs), en=t0 + len(evs) + 5, app=1))
+        evs.append(dict(id=i, par=par, job=job, name=name, ty=node[0], st=t0 + len(evs) * (1 if dur else 0),
+                        en=t0 + len(evs) * (1 if dur else 0) + dur, app=1))
         for k in node[1]:
             go(k, i)
     go(t, None)
@@ -98,14 +99,28 @@ def gen_cases(out, explore):
     for _ in range(n_rand // 3):
         ntr = rnd.choice([3, 5, 8])
         base = [rand_tree(rnd, rnd.choice([1, 2, 3, 5]), 2) for _ in range(2)]
-        traces, times = [(900, 9, (1, [])), (901, 9, (1, []))], {900: T0, 901: T0 + 10 * MIN - 100}
+        traces, times, durs = [(900, 9, (1, [])), (901, 9, (1, []))], {900: T0, 901: T0 + 10 * MIN - 100}, {}
         for j in range(ntr):
             traces.append((j + 1, 1 + rnd.randrange(2), shuffle_tree(rnd, rnd.choice(base))))
             where = rnd.choice(["in", "in", "before", "after", "edge"])
             times[j + 1] = {"in": T0 + 2 * MIN + rnd.randrange(6 * MIN), "before": T0 + rnd.randrange(MIN // 2),
                             "after": T0 + 9 * MIN + MIN // 2 + rnd.randrange(MIN // 4), "edge": T0 + MIN - rnd.choice([0, 1, 3, 20])}[where]
+            if where == "edge" or rnd.random() < 0.2:
+                durs[j + 1] = 0                  # instantaneous spans (start = end)
+        if rnd.random() < 0.5:                   # a trace exactly on the upper window edge / at the global maximum
+            traces.append((800, 1, rand_tree(rnd, 2, 2)))
+            times[800] = rnd.choice([T0 + 10 * MIN - 100 - MIN, T0 + 10 * MIN - 100 - MIN - 1, T0 + 10 * MIN - 100 - MIN + 1])
+            durs[800] = 0
         cases.append(dict(traces=traces, bs=rnd.choice([1, 2, 1000]), order=rnd.choice(["seq", "interleave"]), buf=1,
-                          times=times, oseed=rnd.randrange(10**6)))
+                          times=times, durs=durs, oseed=rnd.randrange(10**6)))
+    for _ in range(n_rand // 6):                 # default config (time_buffer 0): the newest trace is instantaneous and carries the maximum
+        ntr = rnd.choice([2, 3, 5])
+        traces = [(j + 1, 1 + rnd.randrange(2), rand_tree(rnd, rnd.choice([1, 2, 3]), 2)) for j in range(ntr)]
+        times = {j + 1: 1000 + 50 * j for j in range(ntr)}
+        traces.append((700, 1, (3, [])))
+        times[700] = 1000 + 50 * ntr + 500
+        cases.append(dict(traces=traces, bs=rnd.choice([1, 1000]), order="seq", buf=0, times=times, durs={700: 0},
+                          oseed=rnd.randrange(10**6)))
     return cases, n_exh, n_rand
 
 
@@ -116,7 +131,7 @@ T0 = 1_700_000_000 * 10**9
 def events_of(case):
     evs_by_trace, nid = [], 1
     for k, (job, name, t) in enumerate(case["traces"]):
-        e = flatten(t, job, name, nid, t0=case.get("times", {}).get(job, 1000))
+        e = flatten(t, job, name, nid, t0=case.get("times", {}).get(job, 1000), dur=case.get("durs", {}).get(job, 5))
         nid += len(e)
         evs_by_trace.append(e)
     if case["order"] == "seq":
@@ -139,7 +154,7 @@ def run_impl(case, path):
         return st, None
     try:
         res = h.find_unique_graphs()
-        out = sorted((S.un(n), S.un(j)) for n, js in res.items() for j in js)
+        out = sorted((S.un_name(n), S.un(j)) for n, js in res.items() for j in js)
         status = "ok"
     except Exception as e:  # noqa
         out, status = None, "ERR:" + type(e).__name__
@@ -154,8 +169,8 @@ def run_impl(case, path):
 
 def in_window(case, job, t, lo, hi):
     t0 = case.get("times", {}).get(job, 1000)
-    n = len(flatten(t, job, 1, 1, t0=t0))
-    return any(lo <= t0 + k <= hi or lo <= t0 + k + 5 <= hi for k in range(n))
+    evs = flatten(t, job, 1, 1, t0=t0, dur=case.get("durs", {}).get(job, 5))
+    return any(lo <= e["st"] <= hi or lo <= e["en"] <= hi for e in evs)
 
 
 def oracle(case, sel, mn=None, mx=None):
